@@ -544,9 +544,16 @@ def r11_polygon_rejection(repo: Repo, rep):
                     foreign = [dump(c.func) for c in ast.walk(a.value) if isinstance(c, ast.Call) and ("contains" in dump(c.func) or "within" in dump(c.func)) and dump(c.func) != "self._contains"]
                     tg = {x.id for t in a.targets for x in ast.walk(t) if isinstance(x, ast.Name)}
                     if (from_own or from_acc) and not foreign:
-                        if isinstance(a.value, ast.Subscript) and any(isinstance(x, ast.Name) and x.id in accepted for x in ast.walk(a.value.slice)) or \
-                                (isinstance(a.value, ast.Subscript) and any(isinstance(c, ast.Call) and dump(c.func) == "self._contains" for c in ast.walk(a.value.slice))):
-                            ok = True  # points selected by the accepted rows
+                        if isinstance(a.value, ast.Subscript):
+                            sl = a.value.slice
+                            sl = sl.elts[0] if isinstance(sl, ast.Tuple) and sl.elts else sl
+                            while isinstance(sl, ast.Subscript):
+                                sl = sl.value  # idx[0] of a where-tuple
+                            by_rows = (isinstance(sl, ast.Name) and sl.id in accepted) or \
+                                (isinstance(sl, ast.Call) and (dump(sl.func) == "self._contains" or (attr_chain(sl.func) or "").split(".")[-1] in ("where", "nonzero"))
+                                 and any((isinstance(x, ast.Name) and x.id in accepted) or (isinstance(x, ast.Call) and dump(x.func) == "self._contains") for x in ast.walk(sl)))
+                            if by_rows:
+                                ok = True  # points selected by the accepted rows themselves (a mask or their indices), not by their number
                         accepted |= tg
         rep.check(R, ok, tri.site(node), tri.fq, "points of a triangle that leaves the polygon are selected by self._contains(points)", "no selection by the polygon's own membership test", "rejection without self._contains")
     if n_rej == 0:
@@ -575,6 +582,19 @@ def r11_polygon_rejection(repo: Repo, rep):
             q = pm.get(id(q))
         rep.check(R, any("within(self.polygon)" in g and "not " not in g.split("within")[0][-5:] for g in guards), su.site(a), su.fq,
                   f"`{tname}` (the top-up triangle) is only ever a triangle that lies within the polygon", f"assigned under {guards or 'no guard'}", f"{tname} assigned under {guards}")
+        # .. and it is remembered for EVERY such triangle, also one whose share of the n points rounded to zero (small n: every share may be zero)
+        share = [g for g in guards if "is not None" in g or "is None" in g or g.strip().startswith(("len(", "new_points"))]
+        # the same test written as an early `continue` in front of the assignment
+        q, child = pm.get(id(a)), a
+        while q is not None and not isinstance(q, (ast.For, ast.While)):
+            child, q = q, pm.get(id(q))
+        if isinstance(q, (ast.For, ast.While)) and child in q.body:
+            for st in q.body[: q.body.index(child)]:
+                if isinstance(st, ast.If) and ("is None" in dump(st.test) or "is not None" in dump(st.test) or dump(st.test).startswith(("len(", "not "))) \
+                        and any(isinstance(x, ast.Continue) for x in ast.walk(st)):
+                    share.append(f"{dump(st.test)[:40]}: continue")
+        rep.check(R, not share, su.site(a), su.fq, f"`{tname}` is chosen whether or not the triangle received a share of the points (for n = 1 every share rounds to zero)",
+                  f"assigned only under {share}", f"{tname} assigned only under {share}")
 
 
 def r10_perimeter_walk(repo: Repo, rep):
@@ -795,6 +815,12 @@ TWINS_EXTRA = [
     dict(id="C01-T5", file=_CIf, old="        r *= radius\n", new="        r = radius * r\n", what="out-of-place scaling"),
 ]
 MUTANTS = [m for m in MUTANTS if m["id"] != "C01-M13"]
+_SHP = "src/torchphysics/problem/domains/domain2D/shapely_polygon.py"
+MUTANTS += [
+    dict(id="C01-M19", file=_SHP, old="            if new_points is not None:\n                points = torch.cat((points, new_points), dim=0)\n", new="            if new_points is None:\n                continue\n            points = torch.cat((points, new_points), dim=0)\n", rule=None, rules=["R-C01-11", "R-C02-15"], what="top-up triangle skipped with the empty share (the repaired defect, continue form)"),
+    dict(id="C01-M20", file=_SHP, old="                inside = self._contains(new_points)\n                index = torch.where(inside)[0]\n                new_points = new_points[index]", new="                inside = self._contains(new_points)\n                index = torch.where(inside)[0]\n                new_points = new_points[: len(index)]", rule="R-C01-11", what="as many points as were accepted, not the accepted ones"),
+    dict(id="C01-M21", file=_SHP, old="                if corner_index >= len(corners) - 1:", new="                if corner_index >= len(corners) - 2:", rule="R-C01-10", what="perimeter walk stops before the closing side"),
+]
 TWINS = [
     dict(id="C01-T1", file=_U, old="        valid_points = torch.logical_or(on_bound, torch.logical_not(inside))", new="        valid_points = torch.logical_not(torch.logical_and(torch.logical_not(on_bound), inside))", what="De Morgan"),
     dict(id="C01-T2", file=_H, old="    inside_b = domain_b._contains(grid_a, params)\n    if invert:\n        inside_b = torch.logical_not(inside_b)\n    index = torch.where(inside_b)[0]\n    return index",
